@@ -5,7 +5,8 @@ Require Import Cirbo.Generated.GateTypes.
 Require Import Cirbo.Model.WF.
 Require Import Cirbo.Proofs.OpFacts Cirbo.Proofs.SemFacts Cirbo.Proofs.EvalFacts.
 Require Import Cirbo.Proofs.EvalComplete Cirbo.Proofs.EvalStack Cirbo.Proofs.EvalEntry
-        Cirbo.Proofs.TruthTable Cirbo.Proofs.SemInvariance Cirbo.Proofs.WFSound.
+        Cirbo.Proofs.TruthTable Cirbo.Proofs.SemInvariance Cirbo.Proofs.SemRename Cirbo.Proofs.WFSound.
+Require Import Cirbo.Proofs.TraverseInv.
 Require Import Coq.Sorting.Permutation.
 
 (* (a) the generated operator tables are the fixed Boolean function of every gate type,
@@ -97,6 +98,35 @@ Theorem C01_stack_evaluation_complete : forall c a outs,
     (forall l v, dget d l = Some v -> Eval c a l v \/ v = U) /\
     (forall l, has_gate c l = true <-> dmem d l = true).
 Proof. exact evaluate_circuit_complete. Qed.
+
+(* ... and every gate that is neither an input nor reachable from the requested outputs along
+   operand edges is reported Undefined ("unreachable part will be Undefined") *)
+Theorem C01_stack_evaluation_unreached_undefined : forall fuel c a outs d l,
+  assigns_inputs_only c a -> evaluate_circuit_fuel fuel c a outs = Ok d ->
+  has_gate c l = true -> ~ In l (inputs c) -> ~ reach (ops_of c) (requested c outs) l ->
+  dget d l = Some U.
+Proof. exact evaluate_circuit_unreached. Qed.
+
+(* all entry points return the same values: whole circuit, stack, outputs dictionary ... *)
+Theorem C01_entry_points_agree : forall c a, WF c -> arity_ok c -> assigns_inputs_only c a ->
+  exists dfull dstack r,
+    evaluate_full_circuit c a = Ok dfull /\ evaluate_circuit c a None = Ok dstack /\
+    evaluate_circuit_outputs c a = Ok r /\
+    forall o, In o (outputs c) ->
+      exists v, dget dfull o = Some v /\ dget dstack o = Some v /\ dget r o = Some v /\ Eval c a o v.
+Proof. exact entry_points_agree. Qed.
+
+(* ... and the positional ones (evaluate; evaluate_at is its i-th component) *)
+Theorem C01_evaluate_agrees_with_full : forall c vals,
+  WF c -> arity_ok c -> length (inputs c) <= length vals ->
+  exists dfull vs, evaluate_full_circuit c (vec_assignment c vals) = Ok dfull /\ evaluate c vals = Ok vs /\
+    Forall2 (fun o v => dget dfull o = Some v) (outputs c) vs.
+Proof. exact evaluate_agrees_with_full. Qed.
+
+Theorem C01_evaluate_at_is_component : forall c vals i o,
+  WF c -> arity_ok c -> length (inputs c) <= length vals -> nth_error (outputs c) i = Some o ->
+  exists vs v, evaluate c vals = Ok vs /\ evaluate_at c vals i = Ok v /\ nth_error vs i = Some v.
+Proof. exact evaluate_at_nth. Qed.
 
 (* (b) evaluate_circuit_outputs: keys are the outputs, values the semantics *)
 Theorem C01_outputs_evaluation_complete : forall c a,
@@ -229,6 +259,45 @@ Theorem C01_semantics_label_renaming_image : forall (r : label -> label),
   (forall x y, r x = r y -> x = y) ->
   forall c a l' v, Eval (rename_circuit r c) (rename_assignment r a) l' v -> exists l, l' = r l.
 Proof. exact Eval_rename_image. Qed.
+
+(* (c) at the level of the entry points.  Insertion order: two well-formed circuits with the same
+   gate map as a finite map and the same input / output lists have the same evaluate results and
+   the same truth table *)
+Theorem C01_evaluate_gate_order : forall c c' vals, WF c -> WF c' -> arity_ok c ->
+  same_gates c c' -> inputs c = inputs c' -> outputs c = outputs c' ->
+  evaluate c' vals = evaluate c vals.
+Proof. exact evaluate_gate_order. Qed.
+
+Theorem C01_truth_table_gate_order : forall c c', WF c -> WF c' -> arity_ok c ->
+  same_gates c c' -> inputs c = inputs c' -> outputs c = outputs c' ->
+  get_truth_table c' = get_truth_table c.
+Proof. exact get_truth_table_gate_order. Qed.
+
+(* Labels: injective renaming preserves well-formedness; evaluate and the truth table of the
+   renamed circuit are EQUAL to the original ones; evaluate_full_circuit reports at r l the
+   value the original reports at l and has no other keys *)
+Theorem C01_renaming_preserves_WF : forall (r : label -> label),
+  (forall x y, r x = r y -> x = y) -> forall c, WF c -> WF (rename_circuit r c).
+Proof. exact WF_rename. Qed.
+
+Theorem C01_evaluate_label_renaming : forall (r : label -> label),
+  (forall x y, r x = r y -> x = y) ->
+  forall c vals, WF c -> arity_ok c -> evaluate (rename_circuit r c) vals = evaluate c vals.
+Proof. exact evaluate_rename. Qed.
+
+Theorem C01_truth_table_label_renaming : forall (r : label -> label),
+  (forall x y, r x = r y -> x = y) ->
+  forall c, WF c -> arity_ok c -> get_truth_table (rename_circuit r c) = get_truth_table c.
+Proof. exact get_truth_table_rename. Qed.
+
+Theorem C01_full_evaluation_label_renaming : forall (r : label -> label),
+  (forall x y, r x = r y -> x = y) ->
+  forall c a, WF c -> arity_ok c -> assigns_inputs_only c a ->
+  exists d d', evaluate_full_circuit c a = Ok d /\
+               evaluate_full_circuit (rename_circuit r c) (rename_assignment r a) = Ok d' /\
+               (forall l, dget d' (r l) = dget d l) /\
+               (forall l', dmem d' l' = true -> exists l, l' = r l).
+Proof. exact evaluate_full_circuit_rename. Qed.
 
 (* ------------------------------------------------------------------------------------ *)
 (* non-vacuity and (c) "duplicated operands / outputs need no special case": a well-formed
